@@ -181,8 +181,34 @@ def laneBody : List String → String
       match Req.Body.dispatch cfg with
       | none => pure "err"
       | some o =>
-        pure (showKind o.kind ++ " " ++ (match o.body with | none => "nil" | some x => encodeHex x)
-          ++ " " ++ encodeHex o.ct)
+        pure ((match o.body with | none => "nil" | some x => encodeHex x) ++ " " ++ encodeHex o.ct)
+    r.getD "bad-op"
+  | _ => "bad-op"
+
+/-- `c17wire …` = `c17body …` as seen on the wire: an empty body and no body look the same. -/
+def laneWire (args : List String) : String :=
+  let a := laneBody args
+  if a.startsWith "_ " then "nil " ++ (a.drop 2).toString else a
+
+/-- `c17forme2e rk rc rv ck cc cv ordered` → Lean server ∘ Lean client for urlencoded forms:
+what `ParseForm` holds (sorted by key, value order kept) and the error flag; `err` when the
+client refuses (odd ordered count). -/
+def laneFormE2E : List String → String
+  | [rk, rc, rv, ck, cc, cv, ord] =>
+    let r : Option String := do
+      let rk ← decodeList rk; let rc ← decodeNatList rc; let rv ← decodeList rv
+      let ck ← decodeList ck; let cc ← decodeNatList cc; let cv ← decodeList cv
+      let rform ← mkValues rk rc rv
+      let cform ← mkValues ck cc cv
+      let ord ← decodeList ord
+      match Req.Form.pairUp ord with
+      | none => pure "err"
+      | some pairs =>
+        let body := Req.Body.joinAmp (Req.Form.encodePairs pairs)
+          (Req.Form.encode (Req.Form.mergeForm rform cform))
+        let (ps, err) := Req.Form.parseForm body
+        let sp := sortPairs ps
+        pure (encodeList (sp.map (·.1)) ++ " " ++ encodeList (sp.map (·.2)) ++ " " ++ (if err then "err" else "ok"))
     r.getD "bad-op"
   | _ => "bad-op"
 
@@ -225,6 +251,8 @@ def lanes : List (String × (List String → String)) := [
   ("c17cd", laneCd),
   ("c17quote", laneQuote),
   ("c17body", laneBody),
+  ("c17wire", laneWire),
+  ("c17forme2e", laneFormE2E),
   ("c17progw", laneProgW),
   ("c17progr", laneProgR)
 ]
